@@ -12,7 +12,7 @@ def one(d):
     rp = subprocess.run(["/verif/tools/runpatch.py", d + "/patch.diff"], capture_output=True, text=True).stdout
     fired = re.search(r"FIRED: (.*)", rp).group(1)
     now = [] if fired == "none" else fired.split(",")
-    if meta["seed_id"].endswith("-c"):
+    if meta["seed_id"].endswith(("-c", "-d", "-e")):
         meta.setdefault("first_run_checks_fired", meta.get("checks_fired", []))
     meta["checks_fired"] = now
     meta["check_report"] = [l for l in rp.splitlines() if l.startswith(("C", "     "))][:12]
